@@ -47,6 +47,8 @@ var checks = map[string]*check{
 			{Name: "routing-1id", Kind: "explore", Scen: "grpc_route", Inst: inst("single", "single"), Depths: depths([]int{2}, []int{2, 3}), Budget: budget(2*time.Minute, 10*time.Minute)},
 			{Name: "routing-2id", Kind: "explore", Scen: "grpc_route", Inst: inst("pairs", "pairs-all"), Depths: depths([]int{1}, []int{1, 2}), Budget: budget(3*time.Minute, 25*time.Minute)},
 			{Name: "tls-and-address-translation", Kind: "explore", Scen: "grpc_route", Inst: inst("variants", "variants-thorough"), Depths: depths([]int{1}, []int{1, 2}), Budget: budget(3*time.Minute, 15*time.Minute)},
+			// real processes behind a container-like custom runner that translates (and validates) socket addresses
+			{Name: "real-runner", Kind: "enum", Bin: "e3.test", Test: "TestC07Proc"},
 			{Name: "conformance", Kind: "conform", Scen: "grpc_route"},
 		},
 	},
